@@ -48,9 +48,10 @@ ImplRaster(nx, ny, step, samp, rot, padk, roi) ==
   Shift(Rotate(Mesh(x, y), rot), Pad(padk, roi))
 Seqs(S, n) == UNION {[1..k -> S] : k \in 1..n}
 PositionCases(u) ==
-     {[explicit |-> TRUE, pin |-> s, sampling |-> sm, rot |-> r, pad |-> pk, roi |-> roi, nx |-> 0, ny |-> 0, step |-> <<RInt(1), RInt(1)>>] :
-        s \in Seqs(Lattice, MaxJ), sm \in Samplings, r \in Rotations, pk \in Paddings, roi \in {<<8, 8>>}}
-  \cup {[explicit |-> FALSE, pin |-> << >>, sampling |-> sm, rot |-> r, pad |-> pk, roi |-> roi, nx |-> nx, ny |-> ny, step |-> st] :
+     \* gshape: the experimental parameters also carry a grid_scan_shape (1 x J), as they do when the patterns came as a 4-D stack
+     {[explicit |-> TRUE, pin |-> s, sampling |-> sm, rot |-> r, pad |-> pk, roi |-> roi, nx |-> 0, ny |-> 0, step |-> <<RInt(1), RInt(1)>>, gshape |-> gs] :
+        s \in Seqs(Lattice, MaxJ), sm \in Samplings, r \in Rotations, pk \in Paddings, roi \in {<<8, 8>>}, gs \in BOOLEAN}
+  \cup {[explicit |-> FALSE, pin |-> << >>, sampling |-> sm, rot |-> r, pad |-> pk, roi |-> roi, nx |-> nx, ny |-> ny, step |-> st, gshape |-> TRUE] :
         nx \in 1..3, ny \in 1..3, st \in {<<RInt(1), RInt(2)>>, <<R(1, 2), R(1, 2)>>}, sm \in Samplings, r \in Rotations, pk \in Paddings,
         roi \in {<<8, 8>>}}
 PositionEvent(cs) ==
@@ -120,10 +121,13 @@ ProjCases(u) == {[k |-> "proj", variant |-> v, shape |-> s, wave |-> w, amp |-> 
                 w \in {"random", "real", "sparse_spectrum", "plane", "delta"}, a \in {"random", "with_zeros", "own", "constant"}, d \in BOOLEAN}
 UpdateCases(u) == {[k |-> "update", shape |-> s, obj |-> <<s[1] + o[1], s[2] + o[2]>>, pos |-> p, alpha |-> al, beta |-> be, step |-> st, fix_probe |-> fp,
                  pcorr |-> pcr, double |-> d, probe |-> pr] :
-                s \in Shapes, o \in {<<0, 0>>, <<5, 3>>}, p \in {"integer", "wrapping", "half", "fractional"}, al \in {"zero", "small", "half", "one"},
+                s \in Shapes, o \in {<<0, 0>>, <<5, 3>>}, p \in {"integer", "wrapping", "half", "half_b", "fractional"}, al \in {"zero", "small", "half", "one"},
                 be \in {"zero", "half", "one"}, st \in {"one", "half"}, fp \in BOOLEAN, pcr \in BOOLEAN, d \in BOOLEAN, pr \in {"built", "random"}}
-ReconCases(u) == {[k |-> "recon", J |-> j, iters |-> i, empty |-> e, prepos |-> pp, preprobe |-> pb, double |-> d, raster |-> r, truth |-> t] :
-                j \in {1, 2, 4, 6}, i \in 1..3, e \in {0, 1}, pp \in {-1, 0, 3}, pb \in {-1, 0, 2, 100}, d \in BOOLEAN, r \in BOOLEAN, t \in BOOLEAN}
+(* input: explicit positions with a flat stack, a 4-D stack with a raster built from the step sizes, or a 4-D stack WITH explicit positions *)
+ReconCases(u) == {[k |-> "recon", J |-> j, iters |-> i, empty |-> e, prepos |-> pp, preprobe |-> pb, double |-> d, raster |-> (inp = "raster"),
+                   stack4d |-> (inp # "explicit"), truth |-> t] :
+                j \in {1, 2, 4, 6}, i \in 1..3, e \in {0, 1}, pp \in {-1, 0, 3}, pb \in {-1, 0, 2, 100}, d \in BOOLEAN,
+                inp \in {"explicit", "raster", "stack_and_positions"}, t \in BOOLEAN}
 
 (* ------------------------------------------------------------------ the five modes *)
 Init == /\ at = IF Mode = "loop" THEN "begin" ELSE "case"
